@@ -212,19 +212,23 @@ def input_key(schema, X):
 
 # ---------------------------------------------------------------- one batch of schemas
 def evaluate(ctx, b, schemas, labels, norders, tag):
-    """returns list of problems: (kind, schema index, detail dict)"""
+    """returns list of problems: (kind, schema index, detail dict)
+    kinds: property (real verdict != Spec.Legal while real == model), mismatch (real != model on a request: always an alarm),
+           correspondence (tree construction / hypotheses), evallegal, machinery"""
     real = Real(ctx, b, schemas, tag)
     problems = []
     for k, err in real.fail.items():
         problems.append(("machinery", k, {"what": err}))
+    # ---- phase 1 (sequential, all randomness from ctx.rng): the requests of every schema
+    jobs = {}
     for k, schema in enumerate(schemas):
         if k in real.fail:
             continue
         num, names = ranks(schema)
         ms = G.mult_supers(schema)
         subsets = list(G.all_subsets(names))
-        orders = []
-        for X in subsets:
+        qlines, qidx = [], []
+        for xi, X in enumerate(subsets):
             os_ = [list(X)]
             if norders >= 2:
                 o = list(X); ctx.rng.shuffle(o); os_.append(o)
@@ -232,40 +236,59 @@ def evaluate(ctx, b, schemas, labels, norders, tag):
                 os_.append(list(reversed(X)))
             for extra in range(3, norders):
                 o = list(X); ctx.rng.shuffle(o); os_.append(o)
-            orders.append(os_)
-        qlines, qidx = [], []
-        for xi, os_ in enumerate(orders):
             for o in os_:
                 qlines.append("q " + " ".join(n + ("*" if n in ms else "") for n in o))
                 qidx.append(xi)
-        # interleave in a shuffled order so that state left behind by one request would show in another
+        # shuffled so that state left behind by one request would show in another
         perm = list(range(len(qlines)))
         ctx.rng.shuffle(perm)
+        jobs[k] = dict(num=num, names=names, ms=ms, subsets=subsets, qlines=qlines, qidx=qidx, perm=perm)
+
+    # ---- phase 2 (parallel): real matcher, then the Lean driver on the real tree
+    def work(k):
+        j, schema = jobs[k], schemas[k]
+        num, names, ms, subsets, qlines, perm = j["num"], j["names"], j["ms"], j["subsets"], j["qlines"], j["perm"]
         tree_line, rep_p = real.run(k, [qlines[i] for i in perm])
         if tree_line is None:
-            problems.append(("property", k, {"X": [], "what": "crash-building", "reply": rep_p[0], "order": []}))
-            continue
+            return dict(dead=rep_p[0])
         rep = [None] * len(qlines)
-        for j, i in enumerate(perm):
-            rep[i] = rep_p[j] if j < len(rep_p) else "CRASH missing"
-        trees = G.parse_tree(tree_line[2:])
+        for jj, i in enumerate(perm):
+            rep[i] = rep_p[jj] if jj < len(rep_p) else "CRASH missing"
+        out = dict(tree_line=tree_line, rep=rep)
         if "<" in tree_line:
-            problems.append(("correspondence", k, {"what": f"emitted tree has inconsistent links: {tree_line}"}))
-            continue
+            return out
+        trees = G.parse_tree(tree_line[2:])
         sub_order = observed_sub_order(schema, trees)
-        # ---- model side
         nschema = [{"name": str(num[e["name"]]), "abstract": e["abstract"], "supers": [str(num[s]) for s in e["supers"]],
                     "expr": _num_expr(e["expr"], num)} for e in schema]
         nsub = {str(num[n]): [str(num[s]) for s in v] for n, v in sub_order.items()}
         mlines = ["tree " + G.show_collect([num_tree(t, num) for t in trees]),
                   "mult " + " ".join(str(num[n]) for n in sorted(ms)),
                   G.enc_schema(nschema, nsub), "collect", "wf", "implok"]
-        for xi, X in enumerate(subsets):
+        for X in subsets:
             xs = " ".join(str(num[n]) for n in X)
             mlines += ["legal " + xs, "eval " + xs]
         for q in qlines:
             mlines.append("q " + " ".join(str(num[w.rstrip("*")]) for w in q.split()[1:]))
         rc, mout, merr = run_model(ctx, mlines)
+        out.update(trees=trees, mlines=mlines, rc=rc, mout=mout, merr=merr,
+                   pylegal=[G.legal(schema, X) for X in subsets])
+        return out
+    with cf.ThreadPoolExecutor(int(B.NPROC)) as ex:
+        results = dict(zip(jobs, ex.map(work, list(jobs))))
+
+    # ---- phase 3 (sequential): compare
+    for k, res in results.items():
+        schema, j = schemas[k], jobs[k]
+        names, ms, subsets, qlines, qidx = j["names"], j["ms"], j["subsets"], j["qlines"], j["qidx"]
+        if "dead" in res:
+            problems.append(("property", k, {"X": [], "what": "crash-building", "reply": res["dead"], "order": []}))
+            continue
+        tree_line, rep = res["tree_line"], res["rep"]
+        if "<" in tree_line:
+            problems.append(("correspondence", k, {"what": f"emitted tree has inconsistent links: {tree_line}"}))
+            continue
+        trees, mlines, rc, mout, merr = res["trees"], res["mlines"], res["rc"], res["mout"], res["merr"]
         if rc != 0 or len(mout) != len(mlines):
             problems.append(("machinery", k, {"what": f"model driver rc={rc} lines={len(mout)}/{len(mlines)} {merr[-300:]}"}))
             continue
@@ -280,7 +303,7 @@ def evaluate(ctx, b, schemas, labels, norders, tag):
             if mtrees != trees:
                 problems.append(("correspondence", k, {"what": "tree construction: exp2cxx emitted " + G.show_collect(trees) +
                                                        " but collectOf gives " + G.show_collect(mtrees)}))
-        # hypotheses of C08_no_crash on the emitted tree: shape of the heads, multiply-inheriting entities are leaves
+        # hypotheses of C08_no_crash / C08_head_meaning on the emitted tree
         if mout[4] != "W 1":
             problems.append(("correspondence", k, {"what": "emitted tree does not have the shape C08_no_crash assumes (headWF): " + tree_line}))
         if mout[5] != "I 1":
@@ -291,29 +314,32 @@ def evaluate(ctx, b, schemas, labels, norders, tag):
         legal = [mout[6 + 2 * i] == "L 1" for i in range(len(subsets))]
         evalv = [mout[7 + 2 * i] == "E 1" for i in range(len(subsets))]
         mq = mout[6 + 2 * len(subsets):]
+        subs_map = G.subs_of(schema)
+        abstract_leaves = {e["name"] for e in schema if e["abstract"] and not subs_map[e["name"]]}
         for xi, X in enumerate(subsets):
-            pl = G.legal(schema, X)
+            pl = res["pylegal"][xi]
             if pl != legal[xi]:
                 problems.append(("machinery", k, {"what": f"Lean Spec.Legal={legal[xi]} but the independent Python rule says {pl} for {X}"}))
             if legal[xi] != evalv[xi]:
-                ctx.hist("eval-vs-legal", "differ" + ("-several-supertypes" if ms & set(X) else ""))
-                abstract_leaf = any(e["abstract"] and not G.subs_of(schema)[e["name"]] and e["name"] in X for e in schema)
-                if evalv[xi] and not legal[xi] and abstract_leaf:
+                if evalv[xi] and not legal[xi] and abstract_leaves & set(X):
                     # the recorded defect abstract-without-subtypes:accepts-illegal seen from the tree side: the emitted
                     # tree has a plain SimpleList for an ABSTRACT entity without subtypes (reported through the real verdict)
                     ctx.hist("eval-vs-legal", "differ-abstract-without-subtypes")
                 elif not ms and len(X) >= 2:
                     problems.append(("evallegal", k, {"X": list(X), "what": f"plain meaning of the emitted tree says {evalv[xi]}, Spec.Legal says {legal[xi]}"}))
+                else:
+                    ctx.hist("eval-vs-legal", "differ" + ("-several-supertypes" if ms & set(X) else "-single-part"))
             else:
                 ctx.hist("eval-vs-legal", "agree")
-        # (2)+(3) every query
+        # (2)+(3) every request
         seen_x = {}
+        enc = G.enc_schema(schema)
         for qi, q in enumerate(qlines):
             xi = qidx[qi]
             X = subsets[xi]
             order = q.split()[1:]
             r, m = rep[qi], mq[qi]
-            ctx.count(1, key=(labels[k], G.enc_schema(schema), q))
+            ctx.count(1, key=(labels[k], enc, q))
             if r.startswith("CRASH"):
                 what, verdict = "crash " + r[:400], None
             else:
@@ -324,15 +350,14 @@ def evaluate(ctx, b, schemas, labels, norders, tag):
             seen_x.setdefault(xi, verdict)
             ctx.hist("verdicts", ("crash" if verdict is None else ("accepted" if verdict else "refused")) +
                      ("/legal" if legal[xi] else "/illegal"))
-            if what:
-                problems.append(("property", k, {"X": list(X), "order": order, "what": what, "reply": r[:1500],
-                                                 "legal": legal[xi], "tree": tree_line}))
-            # correspondence with the model
             rm = "CRASH" if r.startswith("CRASH") else r
             mm = "CRASH" if m.startswith("R crash") else m
+            base = {"X": list(X), "order": order, "reply": r[:1500], "model": m, "legal": legal[xi], "tree": tree_line}
             if rm != mm:
-                problems.append(("correspondence", k, {"X": list(X), "order": order,
-                                                       "what": f"real matcher {r[:200]!r} vs model {m!r} on {q!r} with tree {tree_line}"}))
+                # the model pins the behaviour of the code as it is (incl. the recorded defects): any departure is an alarm
+                problems.append(("mismatch", k, dict(base, what=what, detail=f"real matcher answers {r[:200]!r}, the Lean matcher model {m!r}")))
+            elif what:
+                problems.append(("property", k, dict(base, what=what)))
         ctx.hist("shapes", labels[k])
         ctx.hist("entities", str(len(schema)))
         for e in schema:
@@ -343,7 +368,7 @@ def evaluate(ctx, b, schemas, labels, norders, tag):
             if len(e["supers"]) > 1:
                 ctx.hist("operators", "several-supertypes")
             mentioned = G.expr_ents(e["expr"])
-            if any(s not in mentioned for s in G.subs_of(schema)[e["name"]]):
+            if any(s not in mentioned for s in subs_map[e["name"]]):
                 ctx.hist("operators", "implicit-subtypes")
     return problems, real
 
@@ -435,6 +460,31 @@ def end_to_end(ctx, b, schema, label, nsets):
 # ---------------------------------------------------------------- reporting
 def report(ctx, problems, schemas, labels):
     nviol = 0
+    # (0) real matcher != Lean matcher model on a request: always an alarm, whatever class the request falls in —
+    # the recorded findings are pinned by the model, so a verdict that departs from the model is a *different* behaviour
+    mism = [(k, d) for kind, k, d in problems if kind == "mismatch"]
+    if mism:
+        ctx.hist("failing-classes", "real-matcher != matcher-model", len(mism))
+        # the ones on which the property itself fails first, then smallest input
+        mism.sort(key=lambda kd: (kd[1]["what"] is None, len(schemas[kd[0]]), len(kd[1]["X"]), G.render_schema(schemas[kd[0]])))
+        shown = set()
+        for k, d in mism:
+            schema = schemas[k]
+            key = "real-vs-model:" + input_key(schema, d["X"])
+            if key in shown or len(shown) >= 3:
+                continue
+            shown.add(key)
+            rep = {"schema": schema, "express": G.render_schema(schema), "X": d["X"], "order": d.get("order"),
+                   "what": d["what"], "reply": d.get("reply"), "model": d.get("model"), "tree": d.get("tree"),
+                   "how": "./check C08 --replay <this file>"}
+            desc = (f"{d['detail']} on parts {d.get('order')} of schema [{G.render_schema(schema).strip()}]; Spec.Legal={d.get('legal')}"
+                    f" ({len(mism)} requests differ in this run)")
+            if d["what"] is not None:
+                ctx.violation(key, f"{d['what'][:200]} and not the behaviour the matcher model pins: " + desc, rep)
+                nviol += 1
+            else:
+                ctx.broken.append(("correspondence real matcher vs Lean matcher model (the property holds on this request)",
+                                   desc + " replay: " + json.dumps(rep)[:3000]))
     by_class = {}
     for kind, k, d in problems:
         if kind != "property":
@@ -525,12 +575,19 @@ def run(ctx):
     if F.lookup("C08", "abstract-without-subtypes:accepts-illegal"):
         schemas.append([E("a", expr=("oneof", [ent("b"), ent("c")])), E("b", ["a"]), E("c", ["a"], abstract=True)])
         labels.append("fixed:abstract-leaf")
-    nrand, maxn, norders = (10, 6, 2) if quick else (1200, 8, 3)
+    nrand, ndirected, norders = (340, 64, 2) if quick else (1600, 480, 3)
+    # directed stream: shapes on which single statements of the matcher decide the verdict (two roots with asymmetric
+    # sides; sub-supertypes with their own ONEOF/AND/ANDOR next to later siblings), names permuted so that every
+    # alphabetical sibling order occurs
+    dshapes = sorted(G.DIRECTED)
+    for i in range(ndirected):
+        shape = dshapes[i % len(dshapes)]
+        schemas.append(G.directed_schema(ctx.rng, shape)); labels.append("directed:" + shape)
     shapes = ["tree", "diamond", "tworoots", "free"]
+    sizes = [5, 6, 7, 7, 8, 8] if quick else [4, 5, 6, 7, 7, 8, 8, 8]
     for i in range(nrand):
         shape = shapes[i % len(shapes)]
-        n = ctx.rng.randint(3, maxn) if quick else ctx.rng.choice([4, 5, 6, 7, 7, 8, 8, 8])
-        schemas.append(G.random_schema(ctx.rng, n=n, shape=shape)); labels.append("random:" + shape)
+        schemas.append(G.random_schema(ctx.rng, n=ctx.rng.choice(sizes), shape=shape)); labels.append("random:" + shape)
     t = time.time()
     problems, real = evaluate(ctx, b, schemas, labels, norders, "main")
     ctx.cov["correspondence"]["all-subsets"] = {"schemas": len(schemas), "orders_per_subset": norders,
